@@ -349,18 +349,34 @@ pub struct ExploreStats {
     pub max_depth: u64,
 }
 
+/// A reference-valid position that the library refuses to construct.  For C07 (validation accepts every
+/// valid position) and C05 (valid positions pass is_sane) that is a violation; the other properties cannot
+/// be judged on a position that does not exist: it is recorded as a cap and the exploration goes on.
+pub fn on_rejected(run: &Run, p: &RefPos, e: &str) {
+    match run.id.as_str() {
+        "C07" => {
+            run.report(Violation::new("C07", "valid-rejected", "reference-valid position rejected by the builder", format!("{} rejected: {}", p.fen(), e), json!({"kind":"fen","fen":p.fen()})));
+        }
+        "C05" => {
+            run.report(Violation::new("C05", "is-sane", "valid position refused at construction", format!("the valid position {} cannot be constructed: {}", p.fen(), e), json!({"kind":"fen","fen":p.fen()})));
+        }
+        _ => {
+            static ONCE: std::sync::atomic::AtomicU64 = std::sync::atomic::AtomicU64::new(0);
+            let n = ONCE.fetch_add(1, Ordering::Relaxed);
+            if n < 5 {
+                run.cap(format!("the valid position {} is refused by the library ({e}) and was not explored; that refusal is a matter for C07 / C05", p.fen()));
+            }
+            run.add_dynamic_rejected();
+        }
+    }
+}
+
 fn make_roots(run: &Run, roots: &[RefPos]) -> Vec<St> {
     let mut out = vec![];
     for r in roots {
         match St::root(r) {
             Ok(s) => out.push(s),
-            Err(e) => {
-                if run.id == "C07" {
-                    continue;
-                }
-                eprintln!("MACHINERY FAILURE: root {} rejected by the library: {}", r.fen(), e);
-                std::process::exit(2);
-            }
+            Err(e) => on_rejected(run, r, &e),
         }
     }
     out
@@ -434,13 +450,7 @@ where
                         dfs_from_first(&**oracle, run, &s, child_depth, first(&p));
                     }
                     Err(e) => {
-                        if run.id == "C07" {
-                            let v = Violation::new("C07", "valid-rejected", "reference-valid position rejected by the builder", format!("{} rejected: {}", p.fen(), e), json!({"kind":"fen","fen":p.fen()}));
-                            run.report(v);
-                        } else {
-                            eprintln!("MACHINERY FAILURE: family member {} rejected by the library: {}", p.fen(), e);
-                            std::process::exit(2);
-                        }
+                        on_rejected(run, &p, &e);
                     }
                 }
             }
